@@ -24,6 +24,7 @@ import random
 import subprocess
 import sys
 import tempfile
+import threading
 import time
 import traceback
 
@@ -60,12 +61,18 @@ def jsonable(obj, depth=0):
     return repr(obj)[:400]
 
 
+class StopCheck(BaseException):
+    """Raised by Ctx.violation once a worker has recorded enough violations: more of the same adds nothing and a
+    broken tree can make every further case run into its time-out."""
+
+
+MAX_VIOLATIONS_PER_WORKER = 60
+
+
 class Ctx:
     """Per-worker monitor state. Thread-safe where checks use it from several threads."""
 
     def __init__(self, prop, tier, seed, shard=0, nshards=1):
-        import threading
-
         self.prop = prop
         self.tier = tier
         self.seed = seed
@@ -84,6 +91,7 @@ class Ctx:
         self.inconclusive: list[str] = []
         self._lock = threading.Lock()
         self.t0 = time.time()
+        self.first_violation_at = None
 
     @property
     def quick(self):
@@ -127,11 +135,20 @@ class Ctx:
             self.vcount[mechanism] = self.vcount.get(mechanism, 0) + 1
             if self.vcount[mechanism] <= MAX_WITNESS_PER_MECH:
                 self.violations.append({"mechanism": mechanism, "witness": jsonable(witness)})
+            total = sum(self.vcount.values())
+            if self.first_violation_at is None:
+                self.first_violation_at = time.time()
+            slow = time.time() - self.first_violation_at > 45
+        if (total >= MAX_VIOLATIONS_PER_WORKER or slow) and threading.current_thread() is threading.main_thread():
+            raise StopCheck()
 
     def unsure(self, reason: str):
         with self._lock:
             if len(self.inconclusive) < 20:
                 self.inconclusive.append(reason)
+            many = len(self.inconclusive) >= 8
+        if many and threading.current_thread() is threading.main_thread():
+            raise StopCheck()
 
     def dump(self):
         return {
@@ -168,6 +185,8 @@ def worker_main(prop, tier, seed, shard, nshards, out):
     ctx = Ctx(prop, tier, seed, shard, nshards)
     try:
         mod.run(ctx)
+    except StopCheck:
+        ctx.count("stopped_early_after_many_violations")
     except BaseException:  # harness failure: never a verdict
         ctx.unsure("worker exception: " + traceback.format_exc()[-1500:])
     with open(out, "w") as fh:
